@@ -32,12 +32,31 @@ pub const RULE: &str = "G-yaml streams (1-4 documents, depth <= 8 with occasiona
 pub struct Mis {
     pub kind: String,
     pub path: String,
+    pub segs: Vec<Seg>,
+    pub doc: usize,
     pub expected: String,
     pub actual: String,
+    /// when the library answered with a string scalar: (unquoted?, decoded text)
+    pub actual_str: Option<(bool, String)>,
+    /// build() error, when that is the failure
+    pub err: Option<succinctly::yaml::YamlError>,
+    /// the model string, when a string was expected
+    pub expected_str: Option<String>,
 }
 
 fn mis(kind: &str, path: &[Seg], e: impl std::fmt::Debug, a: impl std::fmt::Debug) -> Mis {
-    Mis { kind: kind.to_string(), path: gy::path_str(path), expected: trunc(format!("{:?}", e)), actual: trunc(format!("{:?}", a)) }
+    Mis { kind: kind.to_string(), path: gy::path_str(path), segs: path.to_vec(), doc: 0, expected: trunc(format!("{:?}", e)), actual: trunc(format!("{:?}", a)), actual_str: None, err: None, expected_str: None }
+}
+
+/// mismatch whose actual answer is a library value
+fn mis_v(kind: &str, path: &[Seg], e: impl std::fmt::Debug, v: &YamlValue<'_>) -> Mis {
+    let mut m = mis(kind, path, e, describe_value(v));
+    if let YamlValue::String(s) = v {
+        if let Ok(t) = s.as_str() {
+            m.actual_str = Some((s.is_unquoted(), t.into_owned()));
+        }
+    }
+    m
 }
 
 fn trunc(s: String) -> String {
@@ -87,7 +106,7 @@ pub fn walk(v: YamlValue<'_>, y: &Y, path: &mut Vec<Seg>, n_alias: &mut u32, eva
                 _ => false,
             };
             if !ok {
-                return Err(mis("null", path, "null", describe_value(&v)));
+                return Err(mis_v("null", path, "null", &v));
             }
             if !v.is_null() || v.type_name() != "null" {
                 return Err(mis("null-getters", path, "is_null && type_name==null", (v.is_null(), v.type_name())));
@@ -95,7 +114,7 @@ pub fn walk(v: YamlValue<'_>, y: &Y, path: &mut Vec<Seg>, n_alias: &mut u32, eva
         }
         Y::Bool(b) => {
             if v.as_bool() != Some(*b) || v.type_name() != "boolean" {
-                return Err(mis("bool", path, b, describe_value(&v)));
+                return Err(mis_v("bool", path, b, &v));
             }
             if v.is_null() || v.as_i64().is_some() {
                 return Err(mis("bool-getters", path, "not null, not int", describe_value(&v)));
@@ -103,7 +122,7 @@ pub fn walk(v: YamlValue<'_>, y: &Y, path: &mut Vec<Seg>, n_alias: &mut u32, eva
         }
         Y::Int(n) => {
             if v.as_i64() != Some(*n) || v.type_name() != "number" {
-                return Err(mis("int", path, n, describe_value(&v)));
+                return Err(mis_v("int", path, n, &v));
             }
             if v.is_null() || v.as_bool().is_some() {
                 return Err(mis("int-getters", path, "not null, not bool", describe_value(&v)));
@@ -114,7 +133,11 @@ pub fn walk(v: YamlValue<'_>, y: &Y, path: &mut Vec<Seg>, n_alias: &mut u32, eva
                 let got = ys.as_str();
                 match &got {
                     Ok(t) if t.as_ref() == s.as_str() => {}
-                    _ => return Err(mis("str-content", path, s, got.map(|c| c.into_owned()).map_err(|e| e.to_string()))),
+                    _ => {
+                        let mut m = mis_v("str-content", path, s, &v);
+                        m.expected_str = Some(s.clone());
+                        return Err(m);
+                    }
                 }
                 if ys.is_unquoted() && resolve_plain(s) != ResolvedScalar::Str {
                     return Err(mis("str-typed-as-other", path, "string", resolve_plain(s)));
@@ -127,7 +150,7 @@ pub fn walk(v: YamlValue<'_>, y: &Y, path: &mut Vec<Seg>, n_alias: &mut u32, eva
                     o => return Err(mis("str-as_str", path, s, o.map(|c| c.into_owned()))),
                 }
             }
-            _ => return Err(mis("str", path, s, describe_value(&v))),
+            _ => return Err(mis_v("str", path, s, &v)),
         },
         Y::Seq(a) => match &v {
             YamlValue::Sequence(el) => {
@@ -152,7 +175,7 @@ pub fn walk(v: YamlValue<'_>, y: &Y, path: &mut Vec<Seg>, n_alias: &mut u32, eva
                     return Err(mis("seq-shorter", path, a.len(), i));
                 }
             }
-            _ => return Err(mis("seq", path, format!("sequence of {}", a.len()), describe_value(&v))),
+            _ => return Err(mis_v("seq", path, format!("sequence of {}", a.len()), &v)),
         },
         Y::Map(m) => match &v {
             YamlValue::Mapping(f) => {
@@ -195,7 +218,7 @@ pub fn walk(v: YamlValue<'_>, y: &Y, path: &mut Vec<Seg>, n_alias: &mut u32, eva
                     }
                 }
             }
-            _ => return Err(mis("map", path, format!("mapping of {}", m.len()), describe_value(&v))),
+            _ => return Err(mis_v("map", path, format!("mapping of {}", m.len()), &v)),
         },
     }
     Ok(())
@@ -290,7 +313,10 @@ pub fn check_stream(stream: &[Y], text: &[u8], st: &mut Stats) -> Result<(), (St
         Err(e) => {
             let name = format!("{:?}", e);
             let variant = name.split(|c: char| !c.is_alphanumeric()).next().unwrap_or("?").to_string();
-            return Err((format!("build-err/{}", variant), mis("build-err", &[], "Ok", e.to_string())));
+            let mut m = mis("build-err", &[], "Ok", e.to_string());
+            m.kind = variant;
+            m.err = Some(e);
+            return Err(("build-err".to_string(), m));
         }
     };
     let root = index.root(text);
@@ -310,6 +336,7 @@ pub fn check_stream(stream: &[Y], text: &[u8], st: &mut Stats) -> Result<(), (St
         let mut path = vec![];
         walk(cursor.value(), &stream[i], &mut path, &mut n_alias, &mut evals).map_err(|mut m| {
             m.path = format!("doc{}:{}", i, m.path);
+            m.doc = i;
             ("walk".to_string(), m)
         })?;
         // (b3) per-document cursor JSON
@@ -347,20 +374,317 @@ pub fn check_stream(stream: &[Y], text: &[u8], st: &mut Stats) -> Result<(), (St
 }
 
 /// Stable, narrow failure signature: route + mismatch kind + (for known shapes) a shape tag.
-pub fn signature(route: &str, m: &Mis, text: &[u8], r: Option<&gy::RenderedYaml>) -> String {
+pub fn signature(route: &str, m: &Mis, text: &[u8], stream: &[Y]) -> String {
     let mut sig = format!("C14/{}/{}", route, m.kind);
-    if let Some(tag) = shape_tag(m, text, r) {
+    if let Some(tag) = shape_tag(route, m, text, stream) {
         sig.push('/');
         sig.push_str(tag);
     }
     sig
 }
 
-/// Trigger predicates of the recorded findings (DESIGN §2.6): a failure only gets the
-/// finding's signature when the input has the finding's shape *and* the wrong answer is the
-/// recorded one.
-fn shape_tag(_m: &Mis, _text: &[u8], _r: Option<&gy::RenderedYaml>) -> Option<&'static str> {
+/// physical lines (LF / CRLF / CR) of a text
+pub fn lines_of(text: &[u8]) -> Vec<&[u8]> {
+    let mut v = vec![];
+    let mut s = 0;
+    let mut i = 0;
+    while i < text.len() {
+        if text[i] == b'\n' || text[i] == b'\r' {
+            v.push(&text[s..i]);
+            if text[i] == b'\r' && text.get(i + 1) == Some(&b'\n') {
+                i += 1;
+            }
+            s = i + 1;
+        }
+        i += 1;
+    }
+    if s < text.len() {
+        v.push(&text[s..]);
+    }
+    v
+}
+
+/// Trigger predicates of the recorded findings (DESIGN §2.6): a failure only gets a
+/// finding's tag when the input has the finding's shape *and* the wrong answer is the
+/// recorded one. Everything else keeps its untagged signature and is a new VIOLATION.
+fn shape_tag(route: &str, m: &Mis, text: &[u8], stream: &[Y]) -> Option<&'static str> {
+    use succinctly::yaml::YamlError;
+    if route == "build-err" {
+        // (3) `- 'k' : v`: white space between a quoted key and `:` in a compact mapping
+        if let Some(YamlError::UnexpectedCharacter { offset, context, .. }) = &m.err {
+            let o = *offset;
+            if context.contains("after key in compact mapping")
+                && matches!(text.get(o), Some(b' ' | b'\t'))
+                && o > 0
+                && matches!(text[o - 1], b'"' | b'\'')
+                && trim_ws(&text[o..]).first() == Some(&b':')
+            {
+                return Some("compact-quoted-key-then-space");
+            }
+        }
+        // (4) a tab directly after the closing quote of a quoted scalar reported as indentation
+        //     (the reported offset is the tab's or the byte after it)
+        if let Some(YamlError::TabIndentation { offset, .. }) = &m.err {
+            let o = *offset;
+            // the reported offset is the first byte after the white space run that holds the tab
+            let mut t = o.min(text.len());
+            while t > 0 && matches!(text[t - 1], b' ' | b'\t') {
+                t -= 1;
+            }
+            if text.get(t) == Some(&b'\t') && t > 0 {
+                // a closing quote: the line scan says so, or (scalar opened on an earlier line)
+                // the quote does not stand where a scalar can open
+                let quoted = matches!(text[t - 1], b'"' | b'\'')
+                    && (closes_quoted_scalar(text, t - 1) || (t >= 2 && !matches!(text[t - 2], b' ' | b'\t' | b'[' | b'{' | b',' | b':' | b'\n' | b'\r')));
+                let mut a = t;
+                while a > 0 && (text[a - 1].is_ascii_alphanumeric() || matches!(text[a - 1], b'_' | b'-')) {
+                    a -= 1;
+                }
+                let alias = a < t && a > 0 && text[a - 1] == b'*';
+                if quoted || alias {
+                    return Some("tab-after-closing-quote");
+                }
+            }
+        }
+        // (2b) document-level anchor followed by a comment, reported as an indentation error
+        //      further down (the comment was taken for the root scalar)
+        if matches!(&m.err, Some(YamlError::InconsistentIndentation { .. } | YamlError::UnexpectedCharacter { .. } | YamlError::KeyWithoutValue { .. }))
+            && root_anchor_then_comment(&lines_of(text))
+        {
+            return Some("root-anchor-then-comment");
+        }
+        // (7b) the root block scalar finding below, surfacing as an error
+        if matches!(&m.err, Some(YamlError::InconsistentIndentation { .. } | YamlError::UnexpectedCharacter { .. } | YamlError::KeyWithoutValue { .. }))
+            && root_block_scalar_shape(&lines_of(text))
+        {
+            return Some("root-block-scalar-reread");
+        }
+        // (6b) the literal-block finding below, surfacing as an indentation error
+        if matches!(&m.err, Some(YamlError::InconsistentIndentation { .. })) && literal_hash_first_shape(&lines_of(text)) {
+            return Some("literal-hash-first-then-indented");
+        }
+        return None;
+    }
+    if route != "walk" {
+        return None;
+    }
+    let lines = lines_of(text);
+    // (7) document-root block scalar without `---`, or `--- &anchor |`: its content is
+    //     loaded a second time as a further document (later documents shift, so the
+    //     mismatch is a document count or a document root)
+    if (m.kind == "doc-count" || m.segs.is_empty()) && root_block_scalar_shape(&lines) {
+        return Some("root-block-scalar-reread");
+    }
+    // (8) an empty node at the end of a text whose length is a multiple of 64
+    if m.kind == "null" && m.actual.contains("invalid cursor position") && text.len() % 64 == 0 {
+        let t: &[u8] = {
+            let mut e = text.len();
+            while e > 0 && matches!(text[e - 1], b' ' | b'\t' | b'\n' | b'\r') {
+                e -= 1;
+            }
+            &text[..e]
+        };
+        if matches!(t.last(), Some(b':' | b'-')) || t.ends_with(b"---") {
+            return Some("empty-node-at-eof-len64");
+        }
+    }
+    // (6) literal block scalar: first content line starts with `#`, a later line is more
+    //     indented, then a line returns to the block's indentation: spurious extra entries
+    if literal_hash_first_shape(&lines) {
+        return Some("literal-hash-first-then-indented");
+    }
+    // (1) empty mapping value, next content line at column 0 starts with a quoted key, and
+    //     the library answered with that key's text as a *quoted* string value
+    if m.kind == "null" {
+        if let (Some((false, got)), Some(Seg::Key(_))) = (&m.actual_str, m.segs.last()) {
+            let root_has_key = matches!(stream.get(m.doc), Some(Y::Map(r)) if r.iter().any(|e| e.0 == *got));
+            let col0_quoted = lines.iter().any(|l| matches!(l.first(), Some(b'"' | b'\'')));
+            if root_has_key && col0_quoted {
+                return Some("empty-value-then-col0-quoted-key");
+            }
+        }
+    }
+    // (5) plain scalar starting on the line after `-` / `key: &anchor`, with a continuation
+    //     line not deeper than its first line: the library's string is the model's string
+    //     cut at a fold
+    if m.kind == "str-content" {
+        if let (Some((true, got)), Some(exp)) = (&m.actual_str, &m.expected_str) {
+            let cut = exp.starts_with(got.as_str()) && exp[got.len()..].starts_with(' ');
+            let ind = |l: &[u8]| l.iter().take_while(|&&b| b == b' ').count();
+            // content lines only (blank lines and comment lines between them do not matter)
+            let content: Vec<&[u8]> = lines.iter().copied().filter(|l| !matches!(trim_ws(l).first(), None | Some(b'#'))).collect();
+            let first_word = got.split(' ').next().unwrap_or("").as_bytes();
+            let shape = content.windows(2).any(|w| {
+                // strip a trailing comment
+                let mut l1 = trim_ws(w[0]);
+                if let Some(p) = l1.windows(2).position(|x| matches!(x[0], b' ' | b'\t') && x[1] == b'#') {
+                    l1 = &l1[..p];
+                }
+                while matches!(l1.last(), Some(b' ' | b'\t')) {
+                    l1 = &l1[..l1.len() - 1];
+                }
+                let last_tok = l1.rsplit(|&b| b == b' ' || b == b'\t').next().unwrap_or(b"");
+                let opens = last_tok == b"-" || (last_tok.first() == Some(&b'&') && last_tok.len() > 1);
+                opens && ind(w[1]) > ind(w[0]) && w[1][ind(w[1])..].starts_with(first_word)
+            });
+            if cut && shape {
+                return Some("nextline-plain-continuation-not-deeper");
+            }
+        }
+    }
+    // (2) document-level anchor followed by a comment: the comment text comes back as a
+    //     plain scalar where the anchored root node was expected
+    if m.segs.is_empty() {
+        if let Some((true, got)) = &m.actual_str {
+            if got.starts_with('#') {
+                if root_anchor_then_comment(&lines) {
+                    return Some("root-anchor-then-comment");
+                }
+            }
+        }
+    }
     None
+}
+
+/// some document's root node is a block scalar written without `---` or with an anchor
+fn root_block_scalar_shape(lines: &[&[u8]]) -> bool {
+    let content = |l: &&[u8]| !matches!(trim_ws(l).first(), None | Some(b'#'));
+    let mut doc_first = true; // the next content line is the first of its document
+    for l in lines.iter() {
+        if !content(l) {
+            continue;
+        }
+        let (marker, rest) = match l.strip_prefix(b"---") {
+            Some(r) if matches!(r.first(), None | Some(b' ' | b'\t')) => (true, trim_ws(r)),
+            _ => (false, *l),
+        };
+        if marker || doc_first {
+            let (anchored, node) = if rest.first() == Some(&b'&') {
+                let e = rest.iter().position(|&b| b == b' ' || b == b'\t').unwrap_or(rest.len());
+                (true, trim_ws(&rest[e..]))
+            } else {
+                (false, rest)
+            };
+            if matches!(node.first(), Some(b'|' | b'>')) && (marker || l.first() != Some(&b' ')) && (!marker || anchored) {
+                return true;
+            }
+        }
+        doc_first = marker && rest.is_empty();
+    }
+    false
+}
+
+fn literal_hash_first_shape(lines: &[&[u8]]) -> bool {
+    let ind = |l: &[u8]| l.iter().take_while(|&&b| b == b' ').count();
+    for (i, l) in lines.iter().enumerate() {
+        // header: `|` + optional chomping, optional comment, at the end of the line
+        let h = match l.iter().rposition(|&b| b == b'|') {
+            Some(p) => p,
+            None => continue,
+        };
+        let rest = &l[h + 1..];
+        let rest = if matches!(rest.first(), Some(b'-' | b'+')) { &rest[1..] } else { rest };
+        if !matches!(trim_ws(rest).first(), None | Some(b'#')) || (!rest.is_empty() && trim_ws(rest).len() == rest.len() && !rest.is_empty()) {
+            continue;
+        }
+        let mut j = i + 1;
+        while j < lines.len() && lines[j].is_empty() {
+            j += 1;
+        }
+        if j >= lines.len() {
+            continue;
+        }
+        let n = ind(lines[j]);
+        if n == 0 || lines[j].get(n) != Some(&b'#') {
+            continue;
+        }
+        let mut deeper = false;
+        for k in j + 1..lines.len() {
+            let lk = lines[k];
+            if lk.is_empty() {
+                continue;
+            }
+            let d = ind(lk);
+            if d < n {
+                break;
+            }
+            if d > n {
+                deeper = true;
+            }
+        }
+        if deeper {
+            return true;
+        }
+    }
+    false
+}
+
+/// some line is `[--- ]&name <ws> # ...`
+fn root_anchor_then_comment(lines: &[&[u8]]) -> bool {
+    lines.iter().any(|l| {
+        let l = l.strip_prefix(b"---").map(|r| trim_ws(r)).unwrap_or(l);
+        if l.first() != Some(&b'&') {
+            return false;
+        }
+        let name_end = l.iter().position(|&b| b == b' ' || b == b'\t').unwrap_or(l.len());
+        trim_ws(&l[name_end..]).first() == Some(&b'#')
+    })
+}
+
+/// Is the quote byte at `q` the *closing* quote of a quoted scalar on its line? Decided by
+/// scanning the line from its start with the two quoting rules (`''` / `\"` escapes);
+/// good enough for the generated presentation space (quotes inside plain scalars are not
+/// followed by tabs there).
+fn closes_quoted_scalar(text: &[u8], q: usize) -> bool {
+    let ls = text[..q].iter().rposition(|&b| b == b'\n' || b == b'\r').map(|p| p + 1).unwrap_or(0);
+    let mut i = ls;
+    let mut open: Option<u8> = None;
+    while i <= q {
+        let c = text[i];
+        match open {
+            None => {
+                if (c == b'"' || c == b'\'') && (i == ls || matches!(text[i - 1], b' ' | b'\t' | b'[' | b'{' | b',' | b':')) {
+                    open = Some(c);
+                }
+            }
+            Some(b'"') => {
+                if c == b'\\' {
+                    i += 1;
+                } else if c == b'"' {
+                    if i == q {
+                        return true;
+                    }
+                    open = None;
+                }
+            }
+            Some(_) => {
+                if c == b'\'' {
+                    if text.get(i + 1) == Some(&b'\'') {
+                        i += 1;
+                    } else {
+                        if i == q {
+                            return true;
+                        }
+                        open = None;
+                    }
+                }
+            }
+        }
+        i += 1;
+    }
+    false
+}
+
+fn trim_ws(b: &[u8]) -> &[u8] {
+    let mut b = b;
+    while let Some((&c, r)) = b.split_first() {
+        if c == b' ' || c == b'\t' {
+            b = r;
+        } else {
+            break;
+        }
+    }
+    b
 }
 
 pub fn classify(stream: &[Y], r: &gy::RenderedYaml, st: &mut Stats) {
@@ -392,15 +716,18 @@ pub fn describe(stream: &[Y], r: &gy::RenderedYaml) -> Value {
 
 pub fn opts_for(cx: &Ctx) -> YOpts {
     let mut o = YOpts::full();
+    // open known findings are excluded by construction in the main search (DESIGN §2.6);
+    // `open-finding-shapes` keeps generating them
+    o.avoid = gy::YAvoid { empty_value_before_col0_quoted_key: true, comment_after_root_anchor: true, compact_collection_return_after_deeper: false, tab_after_dash_before_flow_or_quoted: false, pipe_inside_plain: false, block_scalar_on_compact_line: false, compact_quoted_key_space_colon: true, tab_after_closing_quote: true, nextline_plain_continuation_not_deeper: true, literal_hash_first_then_indented: true, root_block_scalar_reread: true, empty_node_at_eof_len64: true };
     o.max_depth = if cx.tier == Tier::Quick { 40 } else { 100 };
     o
 }
 
-fn gen_model(u: &mut Src, o: &YOpts) -> Vec<Y> {
+pub fn gen_model(u: &mut Src, o: &YOpts) -> Vec<Y> {
     // the spine depth is max_depth; ordinary trees stay shallow
     let mut shallow = o.clone();
     shallow.max_depth = 8;
-    let spine = u.ratio(o.deep_spine_16, 16);
+    let spine = o.deep_spine_16 > 0 && (u.below(16) as u32) >= 16 - o.deep_spine_16.min(16);
     if spine {
         let mut d = o.clone();
         d.deep_spine_16 = 16;
@@ -421,7 +748,7 @@ fn run_case(u: &mut Src, st: &mut Stats, o: &YOpts) -> Result<(), Fail> {
     match check_stream(&stream, &r.text, st) {
         Ok(()) => Ok(()),
         Err((route, m)) => Err(Fail::new(
-            signature(&route, &m, &r.text, Some(&r)),
+            signature(&route, &m, &r.text, &stream),
             json!({"route": route, "kind": m.kind, "path": m.path, "expected": m.expected, "actual": m.actual, "yaml": show_bytes(&r.text)}),
         )),
     }
@@ -444,7 +771,7 @@ fn replay_input(v: &Value) -> Option<Fail> {
     match catch(|| check_stream(&model, &text, &mut st)) {
         Ok(Ok(())) => None,
         Ok(Err((route, m))) => Some(Fail::new(
-            signature(&route, &m, &text, None),
+            signature(&route, &m, &text, &model),
             json!({"route": route, "kind": m.kind, "path": m.path, "expected": m.expected, "actual": m.actual, "yaml": show_bytes(&text)}),
         )),
         Err((loc, msg)) => Some(Fail::new(format!("panic@{}", panic_sig(&loc)), json!({"panic": msg, "location": loc}))),
@@ -453,7 +780,27 @@ fn replay_input(v: &Value) -> Option<Fail> {
 
 static DUMP_SEQ: AtomicUsize = AtomicUsize::new(0);
 
+/// Development aid: `VH_YAML_PROBE=<file> vh run C14 quick` prints what the library makes of a file.
+fn probe(path: &str) {
+    let text = std::fs::read(path).expect("probe file");
+    println!("text: {}", show_bytes(&text));
+    match YamlIndex::build(&text) {
+        Ok(ix) => println!("to_json_document: {}", ix.root(&text).to_json_document()),
+        Err(e) => println!("build error: {}", e),
+    }
+    match succinctly::yaml::validate::validate(&text) {
+        Ok(()) => println!("validate: Ok"),
+        Err(e) => println!("validate: Err {}", e),
+    }
+}
+
 pub fn run(cx: &mut Ctx) {
+    if let Ok(p) = std::env::var("VH_YAML_PROBE") {
+        for f in p.split(',') {
+            probe(f);
+        }
+        return;
+    }
     cx.assume("the model is the oracle: documents are rendered from a tree, never parsed by harness code");
     cx.assume("G-yaml only emits presentations whose YAML 1.2.2 reading is unambiguous and that the repository documents as supported (gen/yaml.rs lists every exclusion with its citation); the generator was cross-checked with PyYAML 6.0.3 during development");
     cx.assume("O-jsonval (harness JSON parser) reads the library's JSON output");
@@ -478,7 +825,10 @@ pub fn run(cx: &mut Ctx) {
     ] {
         cx.require_class("load-vs-model", cl, 20);
     }
-    let plain = [YOpts::plain_data(), YOpts::block_only(), YOpts::flow_only()];
+    let mut plain = [YOpts::plain_data(), YOpts::block_only(), YOpts::flow_only()];
+    for p in plain.iter_mut() {
+        p.avoid = o.avoid;
+    }
     cx.check(
         "load-vs-model-plain",
         "G-yaml with YOpts::plain_data / block_only / flow_only (no YAML-only devices): same oracle",
@@ -487,6 +837,17 @@ pub fn run(cx: &mut Ctx) {
             let o = &plain[u.below(3)];
             run_case(u, st, o)
         },
+    );
+
+    // the shapes of the open findings, not avoided: every failure here must carry a listed
+    // signature (the engine excludes and counts those); any other failure is a violation
+    let mut open = o.clone();
+    open.avoid = gy::YAvoid::none();
+    cx.check(
+        "open-finding-shapes",
+        "G-yaml with no known-finding shape avoided; failures with a listed signature are counted, others are violations",
+        Budget { quick: 3_000, thorough: 60_000, max_len: 3000 },
+        |u, st| run_case(u, st, &open),
     );
 
     if let Ok(dir) = std::env::var("VH_YAML_DUMP") {
